@@ -1,0 +1,115 @@
+//! Verification hooks, compiled only with the cargo feature `verif_hooks`.
+//!
+//! Every function here is a no-op unless a [Hooks] object has been installed
+//! on the *calling thread* with [install]. Threads that never install one see
+//! exactly the shipped behaviour. Nothing in this module is used when the
+//! feature is off.
+
+use std::cell::RefCell;
+use std::sync::Arc;
+
+/// Kind of access requested on a reader-writer lock.
+#[derive(Clone, Copy, Debug, PartialEq, Eq, Hash)]
+pub enum LockKind {
+    /// Shared access.
+    Read,
+    /// Exclusive access.
+    Write,
+}
+
+/// A synchronization-relevant event reported to the installed scheduler.
+#[derive(Clone, Copy, Debug, PartialEq, Eq, Hash)]
+pub enum SchedEvent {
+    /// The thread is about to acquire `lock` (it does not hold it yet).
+    Enter {
+        /// Address of the lock object.
+        lock: usize,
+        /// Requested access.
+        kind: LockKind,
+        /// Static name of the call site.
+        site: &'static str,
+    },
+    /// The thread has just acquired `lock`.
+    Acquired {
+        /// Address of the lock object.
+        lock: usize,
+        /// Granted access.
+        kind: LockKind,
+        /// Static name of the call site.
+        site: &'static str,
+    },
+    /// The thread has just released `lock`.
+    Released {
+        /// Address of the lock object.
+        lock: usize,
+        /// Access that was held.
+        kind: LockKind,
+        /// Static name of the call site.
+        site: &'static str,
+    },
+}
+
+/// Callbacks a simulator installs on its simulated threads.
+pub trait Hooks: Send + Sync {
+    /// Called at every synchronization point; may park the calling thread.
+    fn sched(&self, _event: SchedEvent) {}
+    /// `Some(seed)` overrides the operating-system entropy used to seed a
+    /// fresh random generator; `None` keeps the shipped behaviour.
+    fn entropy(&self) -> Option<[u8; 64]> {
+        None
+    }
+}
+
+thread_local! {
+    static HOOKS: RefCell<Option<Arc<dyn Hooks>>> = const { RefCell::new(None) };
+}
+
+/// Install (or with `None`, remove) the hooks of the calling thread.
+pub fn install(hooks: Option<Arc<dyn Hooks>>) {
+    HOOKS.with(|h| *h.borrow_mut() = hooks);
+}
+
+fn current() -> Option<Arc<dyn Hooks>> {
+    HOOKS.try_with(|h| h.borrow().clone()).ok().flatten()
+}
+
+/// Ask the installed hooks for seed bytes.
+pub(crate) fn entropy() -> Option<[u8; 64]> {
+    current().and_then(|h| h.entropy())
+}
+
+/// RAII marker for one lock phase. Declared *before* the real guard so that it
+/// is dropped *after* it; reports `Released` when dropped.
+pub(crate) struct LockScope {
+    hooks: Option<Arc<dyn Hooks>>,
+    lock: usize,
+    kind: LockKind,
+    site: &'static str,
+}
+
+/// Report that the calling thread is about to acquire `lock`.
+pub(crate) fn lock_enter<T>(lock: &T, kind: LockKind, site: &'static str) -> LockScope {
+    let hooks = current();
+    let lock = lock as *const T as usize;
+    if let Some(h) = &hooks {
+        h.sched(SchedEvent::Enter { lock, kind, site });
+    }
+    LockScope { hooks, lock, kind, site }
+}
+
+impl LockScope {
+    /// Report that the lock has been acquired.
+    pub(crate) fn acquired(&self) {
+        if let Some(h) = &self.hooks {
+            h.sched(SchedEvent::Acquired { lock: self.lock, kind: self.kind, site: self.site });
+        }
+    }
+}
+
+impl Drop for LockScope {
+    fn drop(&mut self) {
+        if let Some(h) = &self.hooks {
+            h.sched(SchedEvent::Released { lock: self.lock, kind: self.kind, site: self.site });
+        }
+    }
+}
